@@ -4,9 +4,9 @@ import json, os
 
 def st(k, n, **kw):
     d = dict(k=k, n=n, ref0=dict(p="", g=""), cfg="", mand="", dflt="", desc="", iff="", keys=[], c=[], gs=[], ref=[], aug=[],
-             ty=dict(p="", n="", rng="", len="", en=[], base=dict(p="", n="")), units="", tds=[], et=dict(base="", rngs=[], lens=[], en=[], ids=[]))
+             ty=dict(p="", n="", rng="", len="", en=[], base=dict(p="", n=""), mem=[], path=[]), units="", tds=[], et=dict(base="", rngs=[], lens=[], en=[], ids=[], mems=[], path=[], tgt=""))
     if k in ("leaf", "leaflist") and "ty" not in kw:
-        d["ty"] = dict(p="", n="string", rng="", len="", en=[], base=dict(p="", n=""))
+        d["ty"] = dict(p="", n="string", rng="", len="", en=[], base=dict(p="", n=""), mem=[], path=[])
     d.update(kw)
     return d
 
@@ -17,7 +17,7 @@ def choice(n, *c, **kw): return st("choice", n, c=list(c), **kw)
 def case(n, *c, **kw): return st("case", n, c=list(c), **kw)
 def uses(g, p="", ref=(), aug=(), **kw): return st("uses", g, ref0=dict(p=p, g=g), ref=list(ref), aug=list(aug), **kw)
 def grouping(n, *c, gs=(), tds=()): return dict(n=n, c=list(c), gs=list(gs), tds=list(tds))
-def ty(n, p="", rng="", en=(), base=("", ""), len=""): return dict(p=p, n=n, rng=rng, len=len, en=[dict(l=l, v=v) for l, v in en], base=dict(p=base[0], n=base[1]))
+def ty(n, p="", rng="", en=(), base=("", ""), len="", mem=(), path=()): return dict(p=p, n=n, rng=rng, len=len, en=[dict(l=l, v=v) for l, v in en], base=dict(p=base[0], n=base[1]), mem=list(mem), path=list(path))
 def identity(n, *bases): return dict(n=n, bases=[dict(p=p, n=b) for p, b in bases])
 def typedef(n, t, dflt="", units=""): return dict(n=n, ty=t, dflt=dflt, units=units)
 def module(name, prefix, body, gs=(), tds=(), augs=(), includes=(), imports=(), sub=False, belongs="", ids=()):
@@ -128,7 +128,30 @@ tseed3 = {
                         identity("secure", ("b", "secure"), ("t", "tls"))]),
   "extudp": module("extudp", "u", [], imports=[dict(m="baseids", p="b")], ids=[identity("udp", ("b", "transport"))]),
 }
-json.dump([tseed1, tseed2, tseed3], open(os.path.join(os.path.dirname(os.path.abspath(__file__)), "..", "spec", "yangtypeseeds.json"), "w"), indent=0)
+# unions (members derived through typedefs, restricted in place), bits, leafrefs: relative, absolute,
+# through a typedef, to another leafref, from a grouping used where the target has another type
+tseed4 = {"m": module("m", "m",
+    tds=[typedef("mt", ty("int8", rng="1..10"), dflt="3"),
+         typedef("ut", ty("union", mem=[ty("mt", rng="2..5"), ty("enumeration", en=[("a", -1), ("b", 7), ("c", -1)]), ty("string", len="1..3")]), dflt="a"),
+         typedef("bt", ty("bits", en=[("x", -1), ("y", 5), ("z", -1), ("w", 2)]))],
+    gs=[grouping("g", leaf("gu", ty=ty("ut")), leaf("gb", ty=ty("bits", en=[("p", 3), ("q", -1)])))],
+    body=[
+        cont("top", leaf("u1", ty=ty("ut")), leaf("u2", ty=ty("union", mem=[ty("uint8", rng="0..9"), ty("bt"), ty("ut")])),
+             leaf("b1", ty=ty("bt"))),
+        cont("c1", uses("g")),
+    ])}
+tseed5 = {"m": module("m", "m",
+    tds=[typedef("mt", ty("int8", rng="1..10"), dflt="3"),
+         typedef("lr", ty("leafref", path=["..", "k"]))],
+    gs=[grouping("g", leaf("gr", ty=ty("leafref", path=["..", "k"])))],
+    body=[
+        cont("top", leaf("k", ty=ty("mt")),
+             leaf("r2", ty=ty("lr")), leaf("rr", ty=ty("leafref", path=["..", "r2"])),
+             cont("in", leaf("r3", ty=ty("leafref", path=["..", "..", "k"])), leaf("r4", ty=ty("leafref", path=["/", "c1", "k"])))),
+        cont("c1", leaf("k", ty=ty("string", len="1..4")), uses("g")),
+        cont("c2", leaf("k", ty=ty("bits", en=[("x", -1), ("y", 5)])), uses("g")),
+    ])}
+json.dump([tseed1, tseed2, tseed3, tseed4, tseed5], open(os.path.join(os.path.dirname(os.path.abspath(__file__)), "..", "spec", "yangtypeseeds.json"), "w"), indent=0)
 
 out = os.path.join(os.path.dirname(os.path.abspath(__file__)), "..", "spec", "yangseeds.json")
 json.dump([seed1, seed2, seed3], open(out, "w"), indent=0)
